@@ -440,10 +440,22 @@ def wild_text(rng, name, kind, flavour=None, next_is_sep_or_end=True):
     if kind == 'path':
         opts = ['<%s:path>' % name, '<%s.path()>' % name, '<%s.path>' % name, '{%s:path}' % name]
         return rng.choice(opts) if flavour is None else opts[flavour % len(opts)]
+    if kind.startswith('rx:'):
+        # regexes that look at their own start / end: the filter must see path[i:] only (matched once at the cursor
+        # on the REMAINING text), not the whole path with an offset
+        rx = kind[3:]
+        opts = ['<%s:re:%s>' % (name, rx), '<%s.re(%s)>' % (name, rx)]
+        return rng.choice(opts) if flavour is None else opts[flavour % len(opts)]
     raise ValueError(kind)
 
 
+RX_KINDS = ['rx:^[0-9]+$', 'rx:\\A[a-c]+', 'rx:\\b[a-c]+', 'rx:(?<=/)[0-9]+', 'rx:(?<!x)[a-c]+', 'rx:[a-c]+$',
+            'rx:^[a-c]*', 'rx:(?<![0-9])[0-9]+']
+
+
 def anon_wild_text(rng, kind):
+    if kind.startswith('rx:'):
+        return '<:re:%s>' % kind[3:]
     if kind == 'plain':
         return ':'
     if kind in ('int', 'float'):
@@ -465,7 +477,7 @@ def gen_rule(rng, max_segs=4):
         elif r < 0.80:
             seg = ['W']
         elif r < 0.87:
-            seg = [('L', rng.choice(['a', 'ab', 'v'])), 'W']
+            seg = [('L', rng.choice(['a', 'ab', 'v', 'x', '7'])), 'W']
         elif r < 0.93:
             seg = ['W', ('L', rng.choice(['end', '.x', '-']))]
         else:
@@ -475,6 +487,8 @@ def gen_rule(rng, max_segs=4):
             if it == 'W':
                 free = [n for n in NAMES if n not in used]
                 kind = rng.choice(['plain', 'plain', 'plain', 'int', 'int', 're', 'float', 'path', 're0'])
+                if rng.random() < 0.22:
+                    kind = rng.choice(RX_KINDS)
                 if rng.random() < 0.12 or not free:
                     out.append(('W', None, kind if kind != 're0' else 're'))
                 else:
@@ -519,6 +533,9 @@ SAMPLE = {
 }
 
 
+SAMPLE_RX = ['42', '7', 'abc', 'a', 'cab', 'xab', '', '4x', 'b7']
+
+
 def instantiate(rng, segs):
     parts = []
     for seg in segs:
@@ -527,7 +544,7 @@ def instantiate(rng, segs):
             if it[0] == 'L':
                 txt += it[1]
             else:
-                txt += rng.choice(SAMPLE[it[2]])
+                txt += rng.choice(SAMPLE.get(it[2], SAMPLE_RX))
         parts.append(txt)
     return '/' + '/'.join(parts)
 
